@@ -180,8 +180,13 @@ func (p *redisProc) Stop() error {
 	p.quitOnce.Do(func() {
 		close(p.quit)
 	})
-	p.l.Stop()
+	// NOTE: The upstream must be stopped before waiting for the sessions. A
+	// session may be blocked in sending a request to a backend client whose
+	// queues are full (unresponsive backend), only the stop of the client
+	// could wake it.
+	p.l.Drain()
 	p.u.Stop()
+	p.l.Stop()
 	p.wg.Wait()
 	return nil
 }
